@@ -1108,6 +1108,52 @@ pub fn f_cancel(seed: u64) -> Plan {
 }
 
 // ------------------------------------------------------------------------------------------------
+// F-cancel-big: requests that carry more than 1000 messages / ack IDs, dropped at their k-th
+// suspension: whatever the server does with such a request internally, it is applied entirely
+// or not at all.
+// ------------------------------------------------------------------------------------------------
+
+pub fn f_cancel_big(seed: u64) -> Plan {
+    let mut rng = Rng::new(seed);
+    let mut plan = Plan { seed, family: "cancel_big".into(), final_drain: true, health_probe: true, ..Default::default() };
+    plan.tags.push("cancel".into());
+    plan.tags.push("audit_lists".into());
+    plan.knobs = knobs(&mut rng, true, 0);
+    let topic = topic_name("proj-v", 0);
+    let sub = sub_name("proj-v", 0, 0);
+    let other = sub_name("proj-v", 0, 1);
+    plan.phases.push(Phase {
+        scripts: vec![vec![
+            Step::new(Op::CreateTopic { topic: topic.clone() }),
+            Step::new(Op::CreateSub { sub: sub.clone(), topic: topic.clone(), ack_deadline: 60, push: None }),
+            Step::new(Op::CreateSub { sub: other.clone(), topic: topic.clone(), ack_deadline: 60, push: None }),
+        ]],
+        advance_us: 0,
+        audit: false,
+    });
+    let k = *rng.pick(&[1u32, 2, 2, 3, 3, 4, 5, 6]);
+    let count = *rng.pick(&[1001u32, 1500, 2500, 3000]);
+    if rng.chance(500) {
+        // a large Publish whose client goes away
+        let mut target = Step::new(Op::PublishMany { topic: topic.clone(), count });
+        target.abandon_at = k;
+        plan.phases.push(Phase { scripts: vec![vec![target]], advance_us: rng.below(300_000), audit: true });
+    } else {
+        // a large Acknowledge whose client goes away
+        let mut s = vec![Step::new(Op::PublishMany { topic: topic.clone(), count })];
+        for _ in 0..4 {
+            s.push(Step::new(Op::Pull { sub: sub.clone(), max: 1000, immediate: true }));
+        }
+        let mut target = Step::new(Op::Ack { sub: sub.clone(), sel: sel_any(Pick::All) });
+        target.abandon_at = k;
+        s.push(target);
+        plan.phases.push(Phase { scripts: vec![s], advance_us: 61_500_000, audit: true });
+    }
+    plan.phases.push(Phase { scripts: vec![vec![Step::new(Op::Publish { topic: topic.clone(), msgs: msgs(&mut rng, 1, false) })]], advance_us: 0, audit: true });
+    plan
+}
+
+// ------------------------------------------------------------------------------------------------
 // F-hostile: a normal workload with malformed requests at drawn positions.
 // ------------------------------------------------------------------------------------------------
 
